@@ -17,6 +17,8 @@ struct Obs {
     handle_updates: AtomicUsize,
     linger: usize,
     misrouted: Mutex<Vec<(u8, u8)>>, // (method the emission was made through, method it arrived at)
+    nested_attempts: AtomicUsize,
+    nested_arrivals: AtomicUsize,
 }
 
 struct Rec {
@@ -40,6 +42,9 @@ thread_local! {
     static CUR_EMISSION: std::cell::Cell<u64> = const { std::cell::Cell::new(0) };
     /// which Recorder method the emission in progress on this thread was made through (emit's kind % 6; 99 = unknown)
     static CUR_METHOD: std::cell::Cell<u8> = const { std::cell::Cell::new(99) };
+    /// the wrapper through which a recorder that instruments itself emits from inside its own calls (null = off)
+    static NESTED_VIA: std::cell::Cell<Option<*const (dyn Recorder + Send + Sync)>> = const { std::cell::Cell::new(None) };
+    static NESTED_DEPTH: std::cell::Cell<u32> = const { std::cell::Cell::new(0) };
 }
 
 impl Rec {
@@ -55,6 +60,20 @@ impl Rec {
         }
         o.inside.fetch_add(1, Ordering::SeqCst);
         rt::mark("@op", 0);
+        // a recorder that instruments itself: from inside this call, on the same thread, one more emission through the
+        // wrapper; the handle is alive (we are inside the recorder), so it must arrive here as well
+        if let Some(w) = NESTED_VIA.with(|c| c.get()) {
+            if NESTED_DEPTH.with(|c| c.get()) == 0 {
+                NESTED_DEPTH.with(|c| c.set(1));
+                let saved = CUR_METHOD.with(|c| c.replace(4));
+                o.nested_attempts.fetch_add(1, Ordering::SeqCst);
+                unsafe { (*w).describe_gauge(KeyName::from_const_str("c20_nested"), None, SharedString::const_str("nested")) };
+                CUR_METHOD.with(|c| c.set(saved));
+                NESTED_DEPTH.with(|c| c.set(0));
+            } else {
+                o.nested_arrivals.fetch_add(1, Ordering::SeqCst);
+            }
+        }
         // linger inside the recorder for a bounded number of steps so that a premature recovery becomes observable
         for _ in 0..o.linger {
             if o.finalised.load(Ordering::SeqCst) {
@@ -113,6 +132,8 @@ fn new_obs(linger: usize) -> Arc<Obs> {
         handle_updates: AtomicUsize::new(0),
         linger,
         misrouted: Mutex::new(Vec::new()),
+        nested_attempts: AtomicUsize::new(0),
+        nested_arrivals: AtomicUsize::new(0),
     })
 }
 
@@ -175,6 +196,7 @@ fn run_trials(a: &Args) -> Report {
         let mode = if miri { 9 } else { t % 3 };
         let long_wait = mode == 0 && !recover_by_drop && r.chance(1, 100);
         let hold_recoverer = r.chance(1, 2);
+        let self_instrumenting = r.chance(1, 3);
         let very_long = long_wait && r.chance(1, 3);
         // role 0 = recoverer, roles 1.. = emitters
         let mut rules = Vec::new();
@@ -221,6 +243,8 @@ fn run_trials(a: &Args) -> Report {
                     CUR_EMISSION.with(|c| c.set(id));
                     let call = o.stamp.fetch_add(1, Ordering::SeqCst);
                     let kind = r.below(12);
+                    let nested = self_instrumenting && r.chance(1, 4);
+                    NESTED_VIA.with(|c| c.set(if nested { Some(std::sync::Arc::as_ptr(&w)) } else { None }));
                     // one emission in eight is made from a destructor while this thread unwinds from an unrelated
                     // (caught) panic: the handle is alive, so it must reach the recorder like any other
                     let unwinding = r.chance(1, 8);
@@ -242,6 +266,7 @@ fn run_trials(a: &Args) -> Report {
                         Err(m) => panics.push(m),
                     }
                     let ret = o.stamp.fetch_add(1, Ordering::SeqCst);
+                    NESTED_VIA.with(|c| c.set(None));
                     out.push((id, call, ret));
                 }
                 (out, handles, panics)
@@ -340,6 +365,11 @@ fn run_trials(a: &Args) -> Report {
         if let Some((want, got)) = obs.misrouted.lock().unwrap().first().cloned() {
             const NAMES: [&str; 6] = ["register_counter", "register_gauge", "register_histogram", "describe_counter", "describe_gauge", "describe_histogram"];
             fail("C20:emission-reached-another-recorder-method", "an emission made through one Recorder method of the wrapper arrived at a different method of the wrapped recorder", jo! {"made_through" => NAMES[want as usize % 6], "arrived_at" => NAMES[got as usize % 6]});
+            continue;
+        }
+        let (na, nr) = (obs.nested_attempts.load(Ordering::SeqCst), obs.nested_arrivals.load(Ordering::SeqCst));
+        if na != nr {
+            fail("C20:nested-emission-not-delivered", "an emission made through the wrapper from inside one of the recorder's own calls (same thread, handle alive: a call is executing inside the recorder) did not reach the recorder", jo! {"nested_emissions_made" => na, "arrived" => nr});
             continue;
         }
         if let Some(m) = emit_panics.first() {
